@@ -420,8 +420,12 @@ def h_fault_text(ctx, keep, new_name):
     r = w.reload()
     info = {'kind': kind, 'before-line': j, 'text': text_of(bad), 'error': str(w.cfg.error)[:200]}
     if kind == 'semantic' and r is True:
-        ctx.cover('refused:semantic')   # accepted: then it is a successful reload of that file, nothing to hold it to here
+        ctx.cover('refused:semantic')   # accepted: then it is a successful reload of that file ...
         ctx.cover('semantic-accepted')
+        # ... and a successful reload has no complaint about the file: ExaBGP's own validation found the file wrong (error set) and
+        # loaded it all the same - a verdict computed and dropped
+        ctx.check('accepted-means-no-error', not str(w.cfg.error).strip(), sig='C17:fault:text:semantic:reload-reported-success-with-an-error-set',
+                  info=dict(info, error=str(w.cfg.error)[:300]))
         return ['accepted', kind, j]
     if kind == 'cut-short' and r is True:
         # ExaBGP accepts some truncated files (an unterminated block is dropped silently): then this was a successful
